@@ -495,15 +495,45 @@ def rule_t2(F):
             except (sx.TooManyPaths, sx.Unknown) as e_:
                 r.bad(b.path, "Instruction::Not/Negate", relfile(b.file), b.line, "cannot evaluate codegen::instruction: %s" % e_)
     # lir constructors: left: <- left param, right: <- right param
+    OPERAND_TYS = ("mir::Var", "lir::Operand", "lir::Var")
+    todo = []
     for suffix, contains in (("::binop", "lir::lower"), ("::call_eq_of", "lir::lower")):
         b = find_body(F, suffix, r, contains=contains)
         if not b:
             continue
+        todo.append((b, True))
+        # private helpers of the lowering that are handed both operands (`self.int_binop(op, left, right, ..)`): wired the same way,
+        # and the call hands the operands on in order
+        ld0 = hir.LocalDefs(b.hir)
+        ops0 = [p.get("name") for p in b.hir["params"] if p.get("ty") in OPERAND_TYS]
+        for hb in hir.with_callees(F, b, depth=2, same_file=True):
+            if hb is b or not hb.hir or hir.last(hb.path) in ("binop", "call_eq_of"):
+                continue
+            hops = [i for i, p in enumerate(hb.hir["params"]) if p.get("ty") in OPERAND_TYS]
+            if len(hops) != 2 or not any("Instruction::" in (hir.res_def({"res": st["path"]}) or "") for st in hir.nodes(hb.hir["value"], "struct")):
+                continue
+            todo.append((hb, False))
+            if len(ops0) == 2:
+                for c in list(hir.nodes(b.hir["value"], "mcall")) + list(hir.nodes(b.hir["value"], "call")):
+                    d_ = c.get("def") if c.get("k") == "mcall" else hir.call_def(c)
+                    if d_ != hb.path:
+                        continue
+                    args = ([c["recv"]] + list(c["args"])) if c.get("k") == "mcall" else list(c["args"])
+                    if len(args) <= max(hops):
+                        continue
+                    lr = {"left" if x == ops0[0] else "right" if x == ops0[1] else x for x in roots(ld0, args[hops[0]]) - {"self"}}
+                    rr = {"left" if x == ops0[0] else "right" if x == ops0[1] else x for x in roots(ld0, args[hops[1]]) - {"self"}}
+                    r.inst("%s -> %s|%d" % (hir.last(b.path), hir.last(hb.path), len(r.instances)), {"call": hb.path, "left_from": sorted(lr), "right_from": sorted(rr)})
+                    if "right" in lr or "left" in rr:
+                        r.bad(b.path, "%s operand order" % hir.last(hb.path), relfile(b.file), c.get("line") or b.line,
+                              "%s hands its operands to %s in the wrong order (left <- %s, right <- %s)" % (hir.last(b.path), hir.last(hb.path), sorted(lr), sorted(rr)))
+    for b, top in todo:
         ld = hir.LocalDefs(b.hir)
         # the two operand parameters, by type and position (names do not matter)
-        ops = [p.get("name") for p in b.hir["params"] if p.get("ty") in ("mir::Var", "lir::Operand")]
+        ops = [p.get("name") for p in b.hir["params"] if p.get("ty") in OPERAND_TYS]
         if len(ops) != 2:
-            r.missing("two operand parameters of %s" % b.path)
+            if top:
+                r.missing("two operand parameters of %s" % b.path)
             continue
         for st in hir.nodes(b.hir["value"], "struct"):
             d = hir.res_def({"res": st["path"]}) or ""
